@@ -41,6 +41,10 @@ var c13Inval = []struct {
 	}, true},
 	{"changed-var", func() *grl.Rule { return grl.R("vChanged", nil, "G.K < 1", `Changed("F.I")`, "G.K = 1") }, true},
 	{"assign-other-object", func() *grl.Rule { return grl.R("vG", nil, "G.I8 < 2", "G.I8 = G.I8 + 1") }, false},
+	// element writes into containers of the SAME fact: the assigned variable (F.Arr[0], F.M["a"]) does not
+	// occur in the call's receiver or arguments
+	{"assign-slice-element-of-receiver-fact", func() *grl.Rule { return grl.R("vElem", grl.Sal(2), "F.Arr[0] < 2", "F.Arr[0] = F.Arr[0] + 1") }, false},
+	{"assign-map-entry-of-receiver-fact", func() *grl.Rule { return grl.R("vEntry", grl.Sal(2), `F.M["a"] < 2`, `F.M["a"] = F.M["a"] + 1`) }, false},
 }
 
 func judgeC13(c *Case, tr *hx.Trace, w *ref.World) []Verdict {
@@ -123,6 +127,8 @@ func C13(rep *ev.Reporter, tier string) {
 			w := ref.NewWorld()
 			f := facts.New()
 			f.B = b
+			f.Arr = []int64{0, 7}
+			f.M = map[string]int64{"a": 0}
 			w.Objs["F"] = f
 			w.Objs["G"] = facts.New()
 			return w
